@@ -89,7 +89,13 @@ pub fn diff_input(prop: &str, seed: u64, k: usize, tier: Tier, corpus: &Corpus) 
                 }
                 s
             }
-            2 => gen::family(r.below(gen::FAMILIES.len()), r.range(1, 400)),
+            2 => {
+                if r.chance(1, 2) {
+                    gen::family(r.below(gen::FAMILIES.len()), r.range(1, 400))
+                } else {
+                    tg::deep_call_case(&mut r)
+                }
+            }
             3..=6 => tg::speculation_case(&mut r),
             7..=9 => {
                 // advance_by short reads: runs of & / datalines terminators / numerics at end of input
